@@ -119,6 +119,7 @@ class Endpoint(object):
         self.io_stats = None
         self.entropy_draws = 0
         self.entropy_fail_at = -1
+        self.entropy_fail_sticky = 0
         self.after_fail = None
         self.pre_hook = None
 
@@ -134,7 +135,7 @@ class Endpoint(object):
         sh.vf_entropy_seed(ctypes.c_uint64(self.seed | 1))
         sh.vf_io_config(1 if self.short_io else 0, ctypes.c_uint64((self.seed * 2654435761 + 12345) | 1))
         if self.entropy_fail_at >= 0:
-            sh.vf_entropy_fail_at(self.entropy_fail_at, 1)
+            sh.vf_entropy_fail_at(self.entropy_fail_at, self.entropy_fail_sticky)
 
     def thread_finish(self):
         sh = self.ctx.shim
@@ -147,6 +148,9 @@ class Endpoint(object):
         b = ctypes.create_string_buffer(8)
         sh.vf_io_first_send_after_fail(b)
         self.first_send_after_fail = b.raw
+        tb = ctypes.create_string_buffer(32)
+        n = sh.vf_io_after_fail_types(tb)
+        self.after_fail_types = list(tb.raw[:n])
         self.t13_calls = sh.vf_t13_calls()
         self.t13_applied = sh.vf_t13_applied()
         self.t13_last_len = sh.vf_t13_last_len()
